@@ -94,54 +94,56 @@ class Worlds:
                 yield from Worlds.tree_paths(c, e["r"], "%se%d/" % (prefix, j))
 
     def readback(self):
-        """every occurrence of every tree is read with git and compared entry by entry with the abstract tree; this also
-        yields the ids of the trees. The same abstract object must have one id, different objects different ids."""
-        req, meta = [], []
-        for w, c in enumerate(self.cases):
-            for k, root in enumerate(c["commits"]):
-                for path, t in self.tree_paths(c, root, ""):
-                    req.append("%s:%s" % (self.commits[w][k], path.rstrip("/")))
-                    meta.append((w, t))
-        data = gitc(["cat-file", "--batch"], cwd=self.git, input=("\n".join(req) + "\n").encode())
+        """every tree is read with git (level by level, starting at `<commit>^{tree}`) and compared entry by entry with the
+        abstract tree; this also yields the ids of the trees. The same abstract object must have one id, different
+        objects different ids."""
         self.trees = [[None] * len(c["trees"]) for c in self.cases]
         seen = {}
-        pos = 0
-        for (w, t) in meta:
-            nl = data.index(b"\n", pos)
-            head = data[pos:nl].split()
-            if len(head) != 3 or head[1] != b"tree":
-                raise ToolError("read-back: %r" % data[pos:nl])
-            size = int(head[2])
-            body = data[nl + 1: nl + 1 + size]
-            pos = nl + 1 + size + 1
-            tid = head[0].decode()
-            if self.trees[w][t - 1] not in (None, tid):
-                raise ToolError("read-back: one abstract tree, two ids")
-            self.trees[w][t - 1] = tid
-            if tid in seen:
-                if seen[tid] != (w, t):
-                    raise ToolError("read-back: two abstract trees share the id %s" % tid)
-                continue
-            seen[tid] = (w, t)
-            ents = []
-            i = 0
-            while i < len(body):
-                sp = body.index(b" ", i)
-                nul = body.index(b"\0", sp)
-                ents.append((body[i:sp].decode().zfill(6), body[sp + 1:nul].decode(), body[nul + 1:nul + 21].hex()))
-                i = nul + 21
-            want = []
-            for j, e in enumerate(self.cases[w]["trees"][t - 1], 1):
-                want.append((MODE[e["k"]], "e%d" % j, e))
-            if [(m, n) for m, n, _h in ents] != [(m, n) for m, n, _e in want]:
-                raise ToolError("read-back mismatch in world %d tree %d: git has %s" % (w, t, ents))
-            for (_m, _n, h), (_m2, _n2, e) in zip(ents, want):
-                if e["k"] == "tree":
-                    if self.trees[w][e["r"] - 1] not in (None, h):
-                        raise ToolError("read-back: subtree id differs")
-                    self.trees[w][e["r"] - 1] = h
-                elif e["k"] != "commit" and h != self.blobs[w][e["r"] - 1]:
-                    raise ToolError("read-back: blob id differs in world %d tree %d" % (w, t))
+        req = []
+        for w, c in enumerate(self.cases):
+            for k, root in enumerate(c["commits"]):
+                req.append(("%s^{tree}" % self.commits[w][k], w, root))
+        while req:
+            data = gitc(["cat-file", "--batch"], cwd=self.git, input=("\n".join(r[0] for r in req) + "\n").encode())
+            nxt = []
+            pos = 0
+            for (_spec, w, t) in req:
+                nl = data.index(b"\n", pos)
+                head = data[pos:nl].split()
+                if len(head) != 3 or head[1] != b"tree":
+                    raise ToolError("read-back: %r" % data[pos:nl])
+                size = int(head[2])
+                body = data[nl + 1: nl + 1 + size]
+                pos = nl + 1 + size + 1
+                tid = head[0].decode()
+                if self.trees[w][t - 1] not in (None, tid):
+                    raise ToolError("read-back: one abstract tree, two ids")
+                self.trees[w][t - 1] = tid
+                if tid in seen:
+                    if seen[tid] != (w, t):
+                        raise ToolError("read-back: two abstract trees share the id %s" % tid)
+                    continue
+                seen[tid] = (w, t)
+                ents = []
+                i = 0
+                while i < len(body):
+                    sp = body.index(b" ", i)
+                    nul = body.index(b"\0", sp)
+                    ents.append((body[i:sp].decode().zfill(6), body[sp + 1:nul].decode(), body[nul + 1:nul + 21].hex()))
+                    i = nul + 21
+                want = [(MODE[e["k"]], "e%d" % j, e) for j, e in enumerate(self.cases[w]["trees"][t - 1], 1)]
+                if [(m, n) for m, n, _h in ents] != [(m, n) for m, n, _e in want]:
+                    raise ToolError("read-back mismatch in world %d tree %d: git has %s" % (w, t, ents))
+                for (_m, _n, h), (_m2, _n2, e) in zip(ents, want):
+                    if e["k"] == "tree":
+                        if self.trees[w][e["r"] - 1] not in (None, h):
+                            raise ToolError("read-back: subtree id differs")
+                        if self.trees[w][e["r"] - 1] is None:
+                            self.trees[w][e["r"] - 1] = h
+                            nxt.append((h, w, e["r"]))
+                    elif e["k"] != "commit" and h != self.blobs[w][e["r"] - 1]:
+                        raise ToolError("read-back: blob id differs in world %d tree %d" % (w, t))
+            req = nxt
         self.key = {}
         for w, c in enumerate(self.cases):
             for n, h in enumerate(self.blobs[w], 1):
@@ -244,7 +246,7 @@ def classes_of(c, obs):
 def gen_consts(ctx):
     if ctx.thorough:
         return [{"NB": 3, "NT": 2, "MaxEnt": 3, "MaxDel": 5}, {"NB": 2, "NT": 3, "MaxEnt": 2, "MaxDel": 2}]
-    return [{"NB": 2, "NT": 2, "MaxEnt": 2, "MaxDel": 4}, {"NB": 2, "NT": 3, "MaxEnt": 2, "MaxDel": 1}]
+    return [{"NB": 2, "NT": 2, "MaxEnt": 2, "MaxDel": 4}, {"NB": 1, "NT": 3, "MaxEnt": 2, "MaxDel": 1}]
 
 
 def run(ctx):
